@@ -134,6 +134,8 @@ def o_opts(case):
     cls = [f"qoe{qoe}", f"labelmsm{lm}", f"validate{case['validate']}"]
     if nbad:
         cls.append("has-wrong-crc")
+    if any(i["k"] == "badcrc" and i.get("syncy_payload") for i in items):
+        cls.append("wrong-crc-frame-with-sync-like-payload")
     if foreign:
         cls.append("has-foreign")
     return Res(nontrivial=bool(nbad and foreign), classes=cls, evals=5)
@@ -141,9 +143,11 @@ def o_opts(case):
 
 @st.composite
 def badcrc(draw):
-    f = bytes.fromhex(draw(streams.frames("small"))["b"])
+    src = draw(st.one_of(streams.frames("small"), streams.frames("small"), streams.syncy_frames()))
+    f = bytes.fromhex(src["b"])
     crc = draw(st.binary(min_size=3, max_size=3).filter(lambda c: c != f[-3:]))
-    return streams.item("badcrc", f[:-3] + crc)
+    extra = {"syncy_payload": src["syncy_payload"]} if "syncy_payload" in src else {}
+    return streams.item("badcrc", f[:-3] + crc, **extra)
 
 
 @st.composite
@@ -162,5 +166,5 @@ def _sample(c):
 
 
 SUBS = [
-    Sub("option_differential", o_opts, strategy=s_opts, examples=(150, 3000), rule="see property rule", need={"has-wrong-crc": 1, "has-foreign": 1}, sample=_sample),
+    Sub("option_differential", o_opts, strategy=s_opts, examples=(150, 3000), rule="see property rule", need={"has-wrong-crc": 1, "has-foreign": 1, "wrong-crc-frame-with-sync-like-payload": 1}, sample=_sample),
 ]
